@@ -10,7 +10,9 @@
 (*  tdf{case, cls, mode, r, site, in, bytes, out, re}                          *)
 (*     in  : the fonts written ([name, type, sp, glyphs]),                     *)
 (*     out : name, type, sp and the defined-glyph pattern of the fonts read    *)
-(*           back (public API), re : their re-encoding by the engine.          *)
+(*           back (public API), re : their re-encoding by the engine,          *)
+(*     rin / rout : per font and glyph what the engine's renderer draws for    *)
+(*           the font written / read back ([width, rows, crc of the cells]).   *)
 (*                                                                            *)
 (* Property layer (decides the verdict) - the sentences of properties.jsonl:   *)
 (*  FontSurvives : the font read back has the same dimensions, glyph count and *)
@@ -18,7 +20,8 @@
 (*  TdfSurvives  : same number of fonts, same names, types, letter spacing,    *)
 (*                 defined glyphs and glyph data.  TheDrawFont keeps its glyph  *)
 (*                 table private, so the glyph data of the fonts read back is   *)
-(*                 what their re-encoding `re` denotes under Tdf.tla.           *)
+(*                 what their re-encoding `re` denotes under Tdf.tla, and what  *)
+(*                 the engine's renderer draws for each glyph (rin = rout).     *)
 (*                 A writer that REFUSES a font the format cannot hold (glyph   *)
 (*                 block above the 16-bit block size) does not violate it.      *)
 (* Model layer (drift only): the specification's decoder applied to the         *)
@@ -52,6 +55,7 @@ TdfFieldDiff(e, re) ==
   IF Len(e.out) # Len(e.in) THEN {"count"}
   ELSE UNION {  {f \in {"name", "type", "sp"} : e.out[i][f] # e.in[i][f]}
                 \cup (IF e.out[i].def # DefPattern(e.in[i]) THEN {"defined"} ELSE {})
+                \cup (IF Len(e.rout) # Len(e.rin) \/ e.rout[i] # e.rin[i] THEN {"rendering"} ELSE {})
                 \cup (IF ~re.ok \/ Len(re.fonts) # Len(e.in) THEN {"reencoding"} ELSE IF re.fonts[i].glyphs # e.in[i].glyphs THEN {"glyphs"} ELSE {})
               : i \in 1..Len(e.in) }
 
